@@ -391,15 +391,31 @@ def gen_newlen(r, cur_len):
 
 
 def gen_testv(r, ref_data, p_true=0.75):
-    """test vector that passes with probability about p_true against `ref_data`"""
+    """test vector that passes with probability about p_true against `ref_data`.  The statement
+    compares the specimen with the bytes actually read, data[offset:offset+length], as a whole:
+    lengths and specimens are generated independently of each other -- length beyond the end of
+    the data (the read is clipped), specimen shorter than the read (a proper prefix must FAIL),
+    specimen longer than the read, specimen of the asked length where the data is shorter."""
     n = r.choice([0, 0, 1, 1, 2])
     out = []
     for _ in range(n):
         off = pick_offset(r, len(ref_data), len(ref_data) + 20)
-        ln = r.choice([0, 1, 2, 4, 8])
-        spec = bytes(ref_data[off:off + ln])
+        ln = r.choice([0, 1, 2, 4, 8, 8, 16, 100])
+        read = bytes(ref_data[off:off + ln])
+        spec = read
         if r.random() > p_true:
-            spec = spec + b"\x01" if r.random() < 0.5 or not spec else bytes([spec[0] ^ 1]) + spec[1:]
+            c = r.random()
+            if c < 0.40 and len(read) >= 2:
+                spec = read[:r.choice([1, 1, len(read) // 2, len(read) - 1]) or 1]          # proper prefix of what is there
+            elif c < 0.55 and len(read) >= 2:
+                spec = read[1:]                                                            # proper suffix
+            elif c < 0.75:
+                spec = read + (b"\x01" if r.random() < 0.5 else bytes(r.choice([1, ln or 1])))  # longer than the read (padded to the asked length)
+            elif read:
+                k = r.randrange(len(read))
+                spec = read[:k] + bytes([read[k] ^ 1]) + read[k + 1:]                      # one byte differs, anywhere
+            else:
+                spec = b"\x00"
         out.append((off, ln, b"eq", spec))
     return out
 
